@@ -2091,7 +2091,10 @@ impl Ord for OwnedTerm {
                     .then_with(|| a.index.cmp(&b.index))
                     .then_with(|| a.uniq.cmp(&b.uniq))
                     .then_with(|| a.pid.cmp(&b.pid))
-                    .then_with(|| compare_term_lists(&a.free_vars, &b.free_vars)),
+                    .then_with(|| compare_term_lists(&a.free_vars, &b.free_vars))
+                    // funs that differ at all are distinct terms (and distinct map keys)
+                    .then_with(|| a.arity.cmp(&b.arity))
+                    .then_with(|| a.num_free.cmp(&b.num_free)),
                 (OwnedTerm::ExternalFun(_), OwnedTerm::InternalFun(_)) => Ordering::Less,
                 (OwnedTerm::InternalFun(_), OwnedTerm::ExternalFun(_)) => Ordering::Greater,
                 (OwnedTerm::Port(a), OwnedTerm::Port(b)) => a
